@@ -1,4 +1,4 @@
 SPECIFICATION Spec
-CONSTANTS MaxEx = 3  SeqSample = 0  BugTrailerCRLF = FALSE  BugUncompressed = FALSE
-INVARIANTS HeadTerminated SelfDelimitingOrClose KthAnswersKth NothingAfterClose ExactlyOnce
+CONSTANTS MaxEx = 3  SeqSample = 0  BugTrailerCRLF = FALSE  BugUncompressed = FALSE  ChunkedTo10 = FALSE
+INVARIANTS HeadTerminated SelfDelimitingOrClose ParsableByClient KthAnswersKth NothingAfterClose ExactlyOnce
 CHECK_DEADLOCK FALSE
